@@ -312,6 +312,29 @@ func osfsExec(c *Ctx, op string) {
 				c.PropFail("goesup-gate", fmt.Sprintf("ResolveLink(%q) from the top-level link %q answered %q: the segment %q does not leave the base and names the entry %q there", target, start, res, target, target), op)
 			}
 		}
+		// a link named through links: the answer is the one given for the link's resolved location (the directory part is
+		// resolved in-root, by the handle itself), never something read along a host-side resolution of those links
+		if strings.Contains(start, "/") && !sp.GoesUp() {
+			if dabs, e := osfs.RealpathForVerif(afs, sp.Dir(), true); e == nil {
+				if rel, e2 := filepath.Rel(filepath.Join(outer, "x", "base"), dabs); e2 == nil && !strings.HasPrefix(rel, "..") {
+					if sp2, ok2 := tryRel(filepath.Join(rel, sp.Last())); ok2 && sp2 != sp {
+						res2 := ""
+						func() {
+							defer func() { recover() }()
+							if p2, e3 := afs.ResolveLink(target, sp2); e3 != nil {
+								res2 = "err " + fsCatOf(e3)
+							} else {
+								s2, _ := relFields(p2)
+								res2 = "ok " + hx(s2)
+							}
+						}()
+						if strings.HasPrefix(res2, "ok ") && res2 != res { // (a resolved location that does not exist answers not-exists by itself)
+							c.PropFail("osfs-differs-from-kernel", fmt.Sprintf("ResolveLink(%q) at %q answers %s; at the same link's resolved location %q it answers %s (links in the directory part were left to the host)", target, start, res, sp2.String(), res2), op)
+						}
+					}
+				}
+			}
+		}
 		if cl := pathpkg.Clean(start); (cl == ".." || strings.HasPrefix(cl, "../")) && res != "err fs-breakout" {
 			c.PropFail("goesup-gate", fmt.Sprintf("ResolveLink(%q) from the starting point %q (cleaned %q, leaves the base) answered %q instead of a breakout error", target, start, cl, res), op)
 		}
@@ -704,15 +727,7 @@ func osfsEngine(c *Ctx) {
 		for i := 0; i < 3; i++ {
 			// the link being resolved sits at `start`; as inside osfs itself, the directory holding it is already resolved
 			start := paths[c.Intn(len(paths))]
-			linkFree := true
-			for _, n := range ns {
-				if n.kind == 'L' && strings.HasPrefix(start, n.path+"/") {
-					linkFree = false
-				}
-			}
-			if !linkFree {
-				continue
-			}
+			// (since `fix:` 8be2f29 the directory part of the start may itself be named through links)
 			osfsExec(c, fmt.Sprintf("osfs %s resolvelink %s %s", tt, hx(linkTargets[c.Intn(len(linkTargets))]), hx(start)))
 		}
 		for i := 0; i < 4; i++ {
@@ -721,6 +736,16 @@ func osfsEngine(c *Ctx) {
 		if k < len(corpus) || k%5 == 0 {
 			for _, tg := range []string{"..data", "...", "..x", "name", ".hidden", "..2024_01"} {
 				osfsExec(c, fmt.Sprintf("osfs %s resolvelink %s %s", tt, hx(tg), hx("toplink")))
+			}
+		}
+		// ResolveLink of a link that is itself named through a link of the tree
+		if k < len(corpus) || k%5 == 0 {
+			for _, n := range ns {
+				if n.kind == 'L' && !strings.Contains(n.path, "@") {
+					for _, tg := range []string{"b", "../x", "/a", "./d/../f"} {
+						osfsExec(c, fmt.Sprintf("osfs %s resolvelink %s %s", tt, hx(tg), hx(n.path+"/zz")))
+					}
+				}
 			}
 		}
 		// ResolveLink from starting points that leave the base, with rooted and relative link texts
